@@ -42,14 +42,19 @@ class LThread:
         self.exc = None
         self.result = None
         self.os_thread = None
+        self.nyield = 0
+        self.inject = None      # dict(at=n, exc=BaseException instance, allow=callable(op) -> bool): an exception delivered
+        self.delivering = False  # to this thread when it is resumed from its n-th scheduling point
 
 
 def _me():
     return getattr(_tls, 'lt', None)
 
 
-def yield_(op, guard=None):
-    """Yield to the controller; returns when this thread is chosen and `guard` holds."""
+def yield_(op, guard=None, intr_guard=None):
+    """Yield to the controller; returns when this thread is chosen and `guard` holds.  If an exception is to be
+    delivered to this thread at this scheduling point (LThread.inject), the thread becomes runnable as soon as
+    `intr_guard` holds (default: at once) and the exception is raised here instead of performing the operation."""
     me = _me()
     ctl = CTL
     g = guard or (lambda: True)
@@ -59,11 +64,21 @@ def yield_(op, guard=None):
         return
     if ctl.aborting:
         raise Abort()
+    me.nyield += 1
+    inj = me.inject
+    if inj is not None and inj['at'] == me.nyield and inj['allow'](op):
+        me.delivering = True
+        g = intr_guard or (lambda: True)
+        op = ('intr',) + tuple(op if isinstance(op, tuple) else (op,))
     me.pending = Pending(op, g)
     ctl.sem.release()
     me.baton.acquire()
     if ctl.aborting:
         raise Abort()
+    if me.delivering:
+        me.delivering = False
+        me.inject = None
+        raise inj['exc']
 
 
 class Controller:
@@ -118,6 +133,7 @@ class Controller:
         CTL = self
         self.active = True
         main = self.spawn(main_fn, 'master')
+        main.inject = getattr(self, 'main_inject', None)
         try:
             while True:
                 live = [t for t in self.threads if not t.finished]
@@ -248,7 +264,20 @@ class DetCondition:
         self.lock.owner = None
         self.lock.count = 0
         self.waiters.append(who)
-        yield_(('wait', self.lock.label), lambda: who in self.notified and self.lock.owner is None)
+        try:
+            yield_(('wait', self.lock.label), lambda: who in self.notified and self.lock.owner is None,
+                   intr_guard=lambda: self.lock.owner is None)
+        except Abort:
+            raise
+        except BaseException:
+            # as threading.Condition.wait: the lock is taken back before the exception leaves wait()
+            if who in self.waiters:
+                self.waiters.remove(who)
+            if who in self.notified:
+                self.notified.remove(who)
+            self.lock.owner = who
+            self.lock.count = saved
+            raise
         self.notified.remove(who)
         self.lock.owner = who
         self.lock.count = saved
@@ -299,6 +328,19 @@ class DetQueue:
         return not self.items
 
 
+class DetLifoQueue(DetQueue):
+    def get(self, block=True, timeout=None):
+        yield_(('get',), lambda: len(self.items) > 0)
+        return self.items.pop()
+
+
+class DetPriorityQueue(DetQueue):
+    def get(self, block=True, timeout=None):
+        yield_(('get',), lambda: len(self.items) > 0)
+        k = min(range(len(self.items)), key=lambda i: self.items[i])
+        return self.items.pop(k)
+
+
 class DetThread:
     _count = [0]
 
@@ -339,6 +381,9 @@ class DetThread:
 
 def _fake_modules():
     th = types.ModuleType('threading')
+    for k in dir(_rt):          # anything without a controlled stand-in is the real thing
+        if not k.startswith('__'):
+            setattr(th, k, getattr(_rt, k))
     th.Thread = DetThread
     th.RLock = DetRLock
     th.Lock = DetLock
@@ -353,9 +398,12 @@ def _fake_modules():
     th.active_count = _rt.active_count
     qm = types.ModuleType('queue')
     import queue as _rq
+    for k in dir(_rq):          # anything without a controlled stand-in is the real thing
+        if not k.startswith('__'):
+            setattr(qm, k, getattr(_rq, k))
     qm.Queue = DetQueue
-    qm.Empty = _rq.Empty
-    qm.Full = _rq.Full
+    qm.LifoQueue = DetLifoQueue
+    qm.PriorityQueue = DetPriorityQueue
     tm = types.ModuleType('time')
     import time as _rtime
     for k in dir(_rtime):
